@@ -17,6 +17,7 @@ import (
 	"bufio"
 	"context"
 	"encoding/hex"
+	"io"
 	"net"
 	"sync"
 
@@ -164,7 +165,10 @@ func (s *tftpService) Handle(ctx context.Context, conn net.Conn) error {
 		}
 		buffer := make([]byte, 512)
 		n, err := b.Read(buffer)
-		if err != nil {
+		if err == io.EOF {
+			// an empty block ends a transfer whose size is a multiple of 512
+			n = 0
+		} else if err != nil {
 			log.Error(err.Error())
 			return err
 		}
